@@ -242,10 +242,23 @@ def neighbours(D, oids, sids, omd, smd, ttype):
         m2[-1]['k'] = 'changed'
         yield 'obs-metadata', (D, oids, sids, m2, smd, ttype)
         yield 'obs-metadata-dropped', (D, oids, sids, None, smd, ttype)
+        # one entry with one category more / one category fewer than the base (every key it shares is equal)
+        for k in range(N):
+            m2 = [dict(e) for e in omd]
+            m2[k]['extra'] = 'x'
+            yield 'obs-metadata-extra-key', (D, oids, sids, m2, smd, ttype)
+            m2 = [dict(e) for e in omd]
+            del m2[k]['k']
+            yield 'obs-metadata-missing-key', (D, oids, sids, m2, smd, ttype)
     if smd is not None:
         m2 = [dict(e) for e in smd]
         m2[0]['g'] = 'changed'
         yield 'samp-metadata', (D, oids, sids, omd, m2, ttype)
+        yield 'samp-metadata-dropped', (D, oids, sids, omd, None, ttype)
+        for k in range(Mm):
+            m2 = [dict(e) for e in smd]
+            m2[k]['extra'] = None
+            yield 'samp-metadata-extra-key', (D, oids, sids, omd, m2, ttype)
     yield 'type', (D, oids, sids, omd, smd, 'Pathway table' if ttype != 'Pathway table' else None)
 
 
@@ -406,7 +419,6 @@ def b_apply(op, t, m, strict=True):
         ax = op[1]
         ids = list(t.ids(ax))
         r = t.sort_order(ids[::-1], axis=ax).sort_order(ids, axis=ax)
-        r.type = ty
         return OPS.Res(r, m, False)
     if n == 'filter_all_ids':
         return OPS.Res(t.filter(list(t.ids(op[1])), axis=op[1], inplace=op[2]), m, op[2])
@@ -423,7 +435,6 @@ def b_apply(op, t, m, strict=True):
                 and np.all(D.sum(axis=1) > 0)):
             raise OPS.Refuse()
         r = t.subsample(int(tot[0]), seed=11)
-        r.type = ty
         return OPS.Res(r, m, False)
     if n == 'TT':
         r = t.transpose().transpose()
@@ -564,8 +575,6 @@ def b_pairs(chunk, acc):
 # ----------------------------------------------------------------------------- part C
 def c_on_state(t, m, report):
     """a copy equals its original; equality is reflexive – in every state any history reaches"""
-    if 0 in t.shape:
-        return      # C16 is stated for non-empty tables
     c = t.copy()
     v = [(t == c), (c == t), (t == t)]
     n = [(t != c), (c != t)]
